@@ -236,18 +236,82 @@ package acl
 //@ ensures[identityRules-held-are-old-or-fresh] forall n string :: has(p.identityRules, n) ==> p.identityRules[n] != nil && allocated(p.identityRules[n]) && ((old(has(p.identityRules, n)) && p.identityRules[n] == old(p.identityRules[n])) || fresh(p.identityRules[n]))
 //@ loop 5 invariant[inputs-untouched] forall r *IdentityRule :: old(allocated(r)) ==> r.Name == old(r.Name) && (!old(owns_identityRules(p, r)) ==> r.Policy == old(r.Policy) && r.Intentions == old(r.Intentions))
 //@ loop 5 invariant[held-are-old-or-fresh] forall n string :: has(p.identityRules, n) ==> p.identityRules[n] != nil && allocated(p.identityRules[n]) && ((old(has(p.identityRules, n)) && p.identityRules[n] == old(p.identityRules[n])) || fresh(p.identityRules[n]))
+//@ requires[identityRules-held-apart] forall n string, k string :: has(p.identityRules, n) && has(p.identityPrefixRules, k) ==> p.identityRules[n] != p.identityPrefixRules[k]
+//@ requires[identityRules-held-injective] forall n string, k string :: has(p.identityRules, n) && has(p.identityRules, k) && n != k ==> p.identityRules[n] != p.identityRules[k]
+//@ ensures[identityRules-held-apart] forall n string, k string :: has(p.identityRules, n) && has(p.identityPrefixRules, k) ==> p.identityRules[n] != p.identityPrefixRules[k]
+//@ ensures[identityRules-held-injective] forall n string, k string :: has(p.identityRules, n) && has(p.identityRules, k) && n != k ==> p.identityRules[n] != p.identityRules[k]
+//@ loop 5 invariant[held-apart] forall n string, k string :: has(p.identityRules, n) && has(p.identityPrefixRules, k) ==> p.identityRules[n] != p.identityPrefixRules[k]
+//@ loop 5 invariant[held-injective] forall n string, k string :: has(p.identityRules, n) && has(p.identityRules, k) && n != k ==> p.identityRules[n] != p.identityRules[k]
+//@ ensures[Identities-max-bound] forall n string :: rank_identityRules(p, n) >= old(rank_identityRules(p, n)) && (forall j int :: 0 <= j && j < len(policy.Identities) && policy.Identities[j].Name == n ==> rank_identityRules(p, n) >= rank(old(policy.Identities[j].Policy)))
+//@ ensures[Identities-max-attained] forall n string :: rank_identityRules(p, n) == old(rank_identityRules(p, n)) || exists j int :: 0 <= j && j < len(policy.Identities) && policy.Identities[j].Name == n && rank_identityRules(p, n) == rank(old(policy.Identities[j].Policy))
+//@ ensures[Identities-intentions-max-bound] forall n string :: irank_identityRules(p, n) >= old(irank_identityRules(p, n)) && (forall j int :: 0 <= j && j < len(policy.Identities) && policy.Identities[j].Name == n ==> irank_identityRules(p, n) >= rank(old(policy.Identities[j].Intentions)))
+//@ ensures[Identities-intentions-max-attained] forall n string :: irank_identityRules(p, n) == old(irank_identityRules(p, n)) || exists j int :: 0 <= j && j < len(policy.Identities) && policy.Identities[j].Name == n && irank_identityRules(p, n) == rank(old(policy.Identities[j].Intentions))
+//@ loop 5 invariant[Identities-max-bound] forall n string :: rank_identityRules(p, n) >= old(rank_identityRules(p, n)) && (forall j int :: 0 <= j && j < range5_idx && policy.Identities[j].Name == n ==> rank_identityRules(p, n) >= rank(old(policy.Identities[j].Policy)))
+//@ loop 5 invariant[Identities-max-attained] forall n string :: rank_identityRules(p, n) == old(rank_identityRules(p, n)) || exists j int :: 0 <= j && j < range5_idx && policy.Identities[j].Name == n && rank_identityRules(p, n) == rank(old(policy.Identities[j].Policy))
+//@ loop 5 invariant[Identities-intentions-max-bound] forall n string :: irank_identityRules(p, n) >= old(irank_identityRules(p, n)) && (forall j int :: 0 <= j && j < range5_idx && policy.Identities[j].Name == n ==> irank_identityRules(p, n) >= rank(old(policy.Identities[j].Intentions)))
+//@ loop 5 invariant[Identities-intentions-max-attained] forall n string :: irank_identityRules(p, n) == old(irank_identityRules(p, n)) || exists j int :: 0 <= j && j < range5_idx && policy.Identities[j].Name == n && irank_identityRules(p, n) == rank(old(policy.Identities[j].Intentions))
 //@ ensures[IdentityRule-inputs-untouched] forall r *IdentityRule :: old(allocated(r)) ==> r.Name == old(r.Name) && (!old(owns_identityPrefixRules(p, r)) && !old(owns_identityRules(p, r)) ==> r.Policy == old(r.Policy) && r.Intentions == old(r.Intentions))
 //@ ensures[identityPrefixRules-held-are-old-or-fresh] forall n string :: has(p.identityPrefixRules, n) ==> p.identityPrefixRules[n] != nil && allocated(p.identityPrefixRules[n]) && ((old(has(p.identityPrefixRules, n)) && p.identityPrefixRules[n] == old(p.identityPrefixRules[n])) || fresh(p.identityPrefixRules[n]))
 //@ loop 6 invariant[inputs-untouched] forall r *IdentityRule :: old(allocated(r)) ==> r.Name == old(r.Name) && (!old(owns_identityPrefixRules(p, r)) && !old(owns_identityRules(p, r)) ==> r.Policy == old(r.Policy) && r.Intentions == old(r.Intentions))
 //@ loop 6 invariant[held-are-old-or-fresh] forall n string :: has(p.identityPrefixRules, n) ==> p.identityPrefixRules[n] != nil && allocated(p.identityPrefixRules[n]) && ((old(has(p.identityPrefixRules, n)) && p.identityPrefixRules[n] == old(p.identityPrefixRules[n])) || fresh(p.identityPrefixRules[n]))
 //@ loop 6 invariant[sibling-held-are-old-or-fresh] forall n string :: has(p.identityRules, n) ==> p.identityRules[n] != nil && allocated(p.identityRules[n]) && ((old(has(p.identityRules, n)) && p.identityRules[n] == old(p.identityRules[n])) || fresh(p.identityRules[n]))
+//@ requires[identityPrefixRules-held-injective] forall n string, k string :: has(p.identityPrefixRules, n) && has(p.identityPrefixRules, k) && n != k ==> p.identityPrefixRules[n] != p.identityPrefixRules[k]
+//@ ensures[identityPrefixRules-held-injective] forall n string, k string :: has(p.identityPrefixRules, n) && has(p.identityPrefixRules, k) && n != k ==> p.identityPrefixRules[n] != p.identityPrefixRules[k]
+//@ loop 6 invariant[held-apart] forall n string, k string :: has(p.identityPrefixRules, n) && has(p.identityRules, k) ==> p.identityPrefixRules[n] != p.identityRules[k]
+//@ loop 6 invariant[held-injective] forall n string, k string :: has(p.identityPrefixRules, n) && has(p.identityPrefixRules, k) && n != k ==> p.identityPrefixRules[n] != p.identityPrefixRules[k]
+//@ loop 6 invariant[sibling-held-injective] forall n string, k string :: has(p.identityRules, n) && has(p.identityRules, k) && n != k ==> p.identityRules[n] != p.identityRules[k]
+//@ ensures[IdentityPrefixes-max-bound] forall n string :: rank_identityPrefixRules(p, n) >= old(rank_identityPrefixRules(p, n)) && (forall j int :: 0 <= j && j < len(policy.IdentityPrefixes) && policy.IdentityPrefixes[j].Name == n ==> rank_identityPrefixRules(p, n) >= rank(old(policy.IdentityPrefixes[j].Policy)))
+//@ ensures[IdentityPrefixes-max-attained] forall n string :: rank_identityPrefixRules(p, n) == old(rank_identityPrefixRules(p, n)) || exists j int :: 0 <= j && j < len(policy.IdentityPrefixes) && policy.IdentityPrefixes[j].Name == n && rank_identityPrefixRules(p, n) == rank(old(policy.IdentityPrefixes[j].Policy))
+//@ ensures[IdentityPrefixes-intentions-max-bound] forall n string :: irank_identityPrefixRules(p, n) >= old(irank_identityPrefixRules(p, n)) && (forall j int :: 0 <= j && j < len(policy.IdentityPrefixes) && policy.IdentityPrefixes[j].Name == n ==> irank_identityPrefixRules(p, n) >= rank(old(policy.IdentityPrefixes[j].Intentions)))
+//@ ensures[IdentityPrefixes-intentions-max-attained] forall n string :: irank_identityPrefixRules(p, n) == old(irank_identityPrefixRules(p, n)) || exists j int :: 0 <= j && j < len(policy.IdentityPrefixes) && policy.IdentityPrefixes[j].Name == n && irank_identityPrefixRules(p, n) == rank(old(policy.IdentityPrefixes[j].Intentions))
+//@ loop 6 invariant[IdentityPrefixes-max-bound] forall n string :: rank_identityPrefixRules(p, n) >= old(rank_identityPrefixRules(p, n)) && (forall j int :: 0 <= j && j < range6_idx && policy.IdentityPrefixes[j].Name == n ==> rank_identityPrefixRules(p, n) >= rank(old(policy.IdentityPrefixes[j].Policy)))
+//@ loop 6 invariant[IdentityPrefixes-max-attained] forall n string :: rank_identityPrefixRules(p, n) == old(rank_identityPrefixRules(p, n)) || exists j int :: 0 <= j && j < range6_idx && policy.IdentityPrefixes[j].Name == n && rank_identityPrefixRules(p, n) == rank(old(policy.IdentityPrefixes[j].Policy))
+//@ loop 6 invariant[IdentityPrefixes-intentions-max-bound] forall n string :: irank_identityPrefixRules(p, n) >= old(irank_identityPrefixRules(p, n)) && (forall j int :: 0 <= j && j < range6_idx && policy.IdentityPrefixes[j].Name == n ==> irank_identityPrefixRules(p, n) >= rank(old(policy.IdentityPrefixes[j].Intentions)))
+//@ loop 6 invariant[IdentityPrefixes-intentions-max-attained] forall n string :: irank_identityPrefixRules(p, n) == old(irank_identityPrefixRules(p, n)) || exists j int :: 0 <= j && j < range6_idx && policy.IdentityPrefixes[j].Name == n && irank_identityPrefixRules(p, n) == rank(old(policy.IdentityPrefixes[j].Intentions))
+//@ loop 6 invariant[sibling-done] range5_idx == len(policy.Identities)
+//@ loop 6 invariant[sibling-max-bound] forall n string :: rank_identityRules(p, n) >= old(rank_identityRules(p, n)) && (forall j int :: 0 <= j && j < range5_idx && policy.Identities[j].Name == n ==> rank_identityRules(p, n) >= rank(old(policy.Identities[j].Policy)))
+//@ loop 6 invariant[sibling-max-attained] forall n string :: rank_identityRules(p, n) == old(rank_identityRules(p, n)) || exists j int :: 0 <= j && j < range5_idx && policy.Identities[j].Name == n && rank_identityRules(p, n) == rank(old(policy.Identities[j].Policy))
+//@ loop 6 invariant[sibling-intentions-max-bound] forall n string :: irank_identityRules(p, n) >= old(irank_identityRules(p, n)) && (forall j int :: 0 <= j && j < range5_idx && policy.Identities[j].Name == n ==> irank_identityRules(p, n) >= rank(old(policy.Identities[j].Intentions)))
+//@ loop 6 invariant[sibling-intentions-max-attained] forall n string :: irank_identityRules(p, n) == old(irank_identityRules(p, n)) || exists j int :: 0 <= j && j < range5_idx && policy.Identities[j].Name == n && irank_identityRules(p, n) == rank(old(policy.Identities[j].Intentions))
 //@ ensures[serviceRules-held-are-old-or-fresh] forall n string :: has(p.serviceRules, n) ==> p.serviceRules[n] != nil && allocated(p.serviceRules[n]) && ((old(has(p.serviceRules, n)) && p.serviceRules[n] == old(p.serviceRules[n])) || fresh(p.serviceRules[n]))
 //@ loop 13 invariant[inputs-untouched] forall r *ServiceRule :: old(allocated(r)) ==> r.Name == old(r.Name) && (!old(owns_serviceRules(p, r)) ==> r.Policy == old(r.Policy) && r.Intentions == old(r.Intentions))
 //@ loop 13 invariant[held-are-old-or-fresh] forall n string :: has(p.serviceRules, n) ==> p.serviceRules[n] != nil && allocated(p.serviceRules[n]) && ((old(has(p.serviceRules, n)) && p.serviceRules[n] == old(p.serviceRules[n])) || fresh(p.serviceRules[n]))
+//@ requires[serviceRules-held-apart] forall n string, k string :: has(p.serviceRules, n) && has(p.servicePrefixRules, k) ==> p.serviceRules[n] != p.servicePrefixRules[k]
+//@ requires[serviceRules-held-injective] forall n string, k string :: has(p.serviceRules, n) && has(p.serviceRules, k) && n != k ==> p.serviceRules[n] != p.serviceRules[k]
+//@ ensures[serviceRules-held-apart] forall n string, k string :: has(p.serviceRules, n) && has(p.servicePrefixRules, k) ==> p.serviceRules[n] != p.servicePrefixRules[k]
+//@ ensures[serviceRules-held-injective] forall n string, k string :: has(p.serviceRules, n) && has(p.serviceRules, k) && n != k ==> p.serviceRules[n] != p.serviceRules[k]
+//@ loop 13 invariant[held-apart] forall n string, k string :: has(p.serviceRules, n) && has(p.servicePrefixRules, k) ==> p.serviceRules[n] != p.servicePrefixRules[k]
+//@ loop 13 invariant[held-injective] forall n string, k string :: has(p.serviceRules, n) && has(p.serviceRules, k) && n != k ==> p.serviceRules[n] != p.serviceRules[k]
+//@ ensures[Services-max-bound] forall n string :: rank_serviceRules(p, n) >= old(rank_serviceRules(p, n)) && (forall j int :: 0 <= j && j < len(policy.Services) && policy.Services[j].Name == n ==> rank_serviceRules(p, n) >= rank(old(policy.Services[j].Policy)))
+//@ ensures[Services-max-attained] forall n string :: rank_serviceRules(p, n) == old(rank_serviceRules(p, n)) || exists j int :: 0 <= j && j < len(policy.Services) && policy.Services[j].Name == n && rank_serviceRules(p, n) == rank(old(policy.Services[j].Policy))
+//@ ensures[Services-intentions-max-bound] forall n string :: irank_serviceRules(p, n) >= old(irank_serviceRules(p, n)) && (forall j int :: 0 <= j && j < len(policy.Services) && policy.Services[j].Name == n ==> irank_serviceRules(p, n) >= rank(old(policy.Services[j].Intentions)))
+//@ ensures[Services-intentions-max-attained] forall n string :: irank_serviceRules(p, n) == old(irank_serviceRules(p, n)) || exists j int :: 0 <= j && j < len(policy.Services) && policy.Services[j].Name == n && irank_serviceRules(p, n) == rank(old(policy.Services[j].Intentions))
+//@ loop 13 invariant[Services-max-bound] forall n string :: rank_serviceRules(p, n) >= old(rank_serviceRules(p, n)) && (forall j int :: 0 <= j && j < range13_idx && policy.Services[j].Name == n ==> rank_serviceRules(p, n) >= rank(old(policy.Services[j].Policy)))
+//@ loop 13 invariant[Services-max-attained] forall n string :: rank_serviceRules(p, n) == old(rank_serviceRules(p, n)) || exists j int :: 0 <= j && j < range13_idx && policy.Services[j].Name == n && rank_serviceRules(p, n) == rank(old(policy.Services[j].Policy))
+//@ loop 13 invariant[Services-intentions-max-bound] forall n string :: irank_serviceRules(p, n) >= old(irank_serviceRules(p, n)) && (forall j int :: 0 <= j && j < range13_idx && policy.Services[j].Name == n ==> irank_serviceRules(p, n) >= rank(old(policy.Services[j].Intentions)))
+//@ loop 13 invariant[Services-intentions-max-attained] forall n string :: irank_serviceRules(p, n) == old(irank_serviceRules(p, n)) || exists j int :: 0 <= j && j < range13_idx && policy.Services[j].Name == n && irank_serviceRules(p, n) == rank(old(policy.Services[j].Intentions))
 //@ ensures[ServiceRule-inputs-untouched] forall r *ServiceRule :: old(allocated(r)) ==> r.Name == old(r.Name) && (!old(owns_servicePrefixRules(p, r)) && !old(owns_serviceRules(p, r)) ==> r.Policy == old(r.Policy) && r.Intentions == old(r.Intentions))
 //@ ensures[servicePrefixRules-held-are-old-or-fresh] forall n string :: has(p.servicePrefixRules, n) ==> p.servicePrefixRules[n] != nil && allocated(p.servicePrefixRules[n]) && ((old(has(p.servicePrefixRules, n)) && p.servicePrefixRules[n] == old(p.servicePrefixRules[n])) || fresh(p.servicePrefixRules[n]))
 //@ loop 14 invariant[inputs-untouched] forall r *ServiceRule :: old(allocated(r)) ==> r.Name == old(r.Name) && (!old(owns_servicePrefixRules(p, r)) && !old(owns_serviceRules(p, r)) ==> r.Policy == old(r.Policy) && r.Intentions == old(r.Intentions))
 //@ loop 14 invariant[held-are-old-or-fresh] forall n string :: has(p.servicePrefixRules, n) ==> p.servicePrefixRules[n] != nil && allocated(p.servicePrefixRules[n]) && ((old(has(p.servicePrefixRules, n)) && p.servicePrefixRules[n] == old(p.servicePrefixRules[n])) || fresh(p.servicePrefixRules[n]))
 //@ loop 14 invariant[sibling-held-are-old-or-fresh] forall n string :: has(p.serviceRules, n) ==> p.serviceRules[n] != nil && allocated(p.serviceRules[n]) && ((old(has(p.serviceRules, n)) && p.serviceRules[n] == old(p.serviceRules[n])) || fresh(p.serviceRules[n]))
+//@ requires[servicePrefixRules-held-injective] forall n string, k string :: has(p.servicePrefixRules, n) && has(p.servicePrefixRules, k) && n != k ==> p.servicePrefixRules[n] != p.servicePrefixRules[k]
+//@ ensures[servicePrefixRules-held-injective] forall n string, k string :: has(p.servicePrefixRules, n) && has(p.servicePrefixRules, k) && n != k ==> p.servicePrefixRules[n] != p.servicePrefixRules[k]
+//@ loop 14 invariant[held-apart] forall n string, k string :: has(p.servicePrefixRules, n) && has(p.serviceRules, k) ==> p.servicePrefixRules[n] != p.serviceRules[k]
+//@ loop 14 invariant[held-injective] forall n string, k string :: has(p.servicePrefixRules, n) && has(p.servicePrefixRules, k) && n != k ==> p.servicePrefixRules[n] != p.servicePrefixRules[k]
+//@ loop 14 invariant[sibling-held-injective] forall n string, k string :: has(p.serviceRules, n) && has(p.serviceRules, k) && n != k ==> p.serviceRules[n] != p.serviceRules[k]
+//@ ensures[ServicePrefixes-max-bound] forall n string :: rank_servicePrefixRules(p, n) >= old(rank_servicePrefixRules(p, n)) && (forall j int :: 0 <= j && j < len(policy.ServicePrefixes) && policy.ServicePrefixes[j].Name == n ==> rank_servicePrefixRules(p, n) >= rank(old(policy.ServicePrefixes[j].Policy)))
+//@ ensures[ServicePrefixes-max-attained] forall n string :: rank_servicePrefixRules(p, n) == old(rank_servicePrefixRules(p, n)) || exists j int :: 0 <= j && j < len(policy.ServicePrefixes) && policy.ServicePrefixes[j].Name == n && rank_servicePrefixRules(p, n) == rank(old(policy.ServicePrefixes[j].Policy))
+//@ ensures[ServicePrefixes-intentions-max-bound] forall n string :: irank_servicePrefixRules(p, n) >= old(irank_servicePrefixRules(p, n)) && (forall j int :: 0 <= j && j < len(policy.ServicePrefixes) && policy.ServicePrefixes[j].Name == n ==> irank_servicePrefixRules(p, n) >= rank(old(policy.ServicePrefixes[j].Intentions)))
+//@ ensures[ServicePrefixes-intentions-max-attained] forall n string :: irank_servicePrefixRules(p, n) == old(irank_servicePrefixRules(p, n)) || exists j int :: 0 <= j && j < len(policy.ServicePrefixes) && policy.ServicePrefixes[j].Name == n && irank_servicePrefixRules(p, n) == rank(old(policy.ServicePrefixes[j].Intentions))
+//@ loop 14 invariant[ServicePrefixes-max-bound] forall n string :: rank_servicePrefixRules(p, n) >= old(rank_servicePrefixRules(p, n)) && (forall j int :: 0 <= j && j < range14_idx && policy.ServicePrefixes[j].Name == n ==> rank_servicePrefixRules(p, n) >= rank(old(policy.ServicePrefixes[j].Policy)))
+//@ loop 14 invariant[ServicePrefixes-max-attained] forall n string :: rank_servicePrefixRules(p, n) == old(rank_servicePrefixRules(p, n)) || exists j int :: 0 <= j && j < range14_idx && policy.ServicePrefixes[j].Name == n && rank_servicePrefixRules(p, n) == rank(old(policy.ServicePrefixes[j].Policy))
+//@ loop 14 invariant[ServicePrefixes-intentions-max-bound] forall n string :: irank_servicePrefixRules(p, n) >= old(irank_servicePrefixRules(p, n)) && (forall j int :: 0 <= j && j < range14_idx && policy.ServicePrefixes[j].Name == n ==> irank_servicePrefixRules(p, n) >= rank(old(policy.ServicePrefixes[j].Intentions)))
+//@ loop 14 invariant[ServicePrefixes-intentions-max-attained] forall n string :: irank_servicePrefixRules(p, n) == old(irank_servicePrefixRules(p, n)) || exists j int :: 0 <= j && j < range14_idx && policy.ServicePrefixes[j].Name == n && irank_servicePrefixRules(p, n) == rank(old(policy.ServicePrefixes[j].Intentions))
+//@ loop 14 invariant[sibling-done] range13_idx == len(policy.Services)
+//@ loop 14 invariant[sibling-max-bound] forall n string :: rank_serviceRules(p, n) >= old(rank_serviceRules(p, n)) && (forall j int :: 0 <= j && j < range13_idx && policy.Services[j].Name == n ==> rank_serviceRules(p, n) >= rank(old(policy.Services[j].Policy)))
+//@ loop 14 invariant[sibling-max-attained] forall n string :: rank_serviceRules(p, n) == old(rank_serviceRules(p, n)) || exists j int :: 0 <= j && j < range13_idx && policy.Services[j].Name == n && rank_serviceRules(p, n) == rank(old(policy.Services[j].Policy))
+//@ loop 14 invariant[sibling-intentions-max-bound] forall n string :: irank_serviceRules(p, n) >= old(irank_serviceRules(p, n)) && (forall j int :: 0 <= j && j < range13_idx && policy.Services[j].Name == n ==> irank_serviceRules(p, n) >= rank(old(policy.Services[j].Intentions)))
+//@ loop 14 invariant[sibling-intentions-max-attained] forall n string :: irank_serviceRules(p, n) == old(irank_serviceRules(p, n)) || exists j int :: 0 <= j && j < range13_idx && policy.Services[j].Name == n && irank_serviceRules(p, n) == rank(old(policy.Services[j].Intentions))
 //@ modifies p.aclRule, p.keyringRule, p.meshRule, p.peeringRule, p.operatorRule, p.agentRules, p.agentPrefixRules, p.eventRules, p.eventPrefixRules, p.identityRules, p.identityPrefixRules, p.keyRules, p.keyPrefixRules, p.nodeRules, p.nodePrefixRules, p.preparedQueryRules, p.preparedQueryPrefixRules, p.serviceRules, p.servicePrefixRules, p.sessionRules, p.sessionPrefixRules, IdentityRule.Policy, IdentityRule.Intentions, IdentityRule.EnterpriseRule, ServiceRule.Policy, ServiceRule.Intentions, ServiceRule.EnterpriseRule
 // END-GENERATED merge
